@@ -153,6 +153,10 @@ type boundsFn struct {
 	stores      map[string][]*ssa.Store
 	inFits      bool // re-entrancy guard of fitsAt
 	inCond      bool // re-entrancy guard of the postcondition facts
+	inCong      bool // re-entrancy guard of the congruence rule
+	inInd       bool // re-entrancy guard of the loop-invariant rule
+	bufWritten  bool // write-side buffer facts added
+	mods        *[]int64
 	cuts        int  // number of cycle cuts taken by rangeOfAtom so far
 	noInline    bool // summary mode: calls stay atoms (the caller translates them)
 	phiDone     map[*ssa.Phi]bool
@@ -620,6 +624,11 @@ func (bf *boundsFn) rangeOfAtom1(x interface{}) ival {
 			}
 			return ival{lo, hi}
 		}
+		// result of an internal function every return of which is a slice of
+		// a fixed-size array: no longer than the array
+		if hi, ok := bf.B.returnLenHi(lk.v); ok {
+			r.hi = hi
+		}
 		return r
 	}
 	v := x.(ssa.Value)
@@ -959,6 +968,10 @@ func (bf *boundsFn) computeFacts() {
 	fn := bf.fn
 	if fn.Blocks == nil {
 		return
+	}
+	if !bf.bufWritten {
+		bf.bufWritten = true
+		bf.bufWriteFacts()
 	}
 	bf.runBlocks(rpoOrder(fn), map[*ssa.BasicBlock]bufState{}, map[*ssa.BasicBlock]bool{}, nil, 0)
 }
@@ -1318,7 +1331,7 @@ func (bf *boundsFn) proveAt(e aff, b *ssa.BasicBlock, at ssa.Instruction) bool {
 			}
 		}
 	}
-	return bf.proveFM(e, fs)
+	return bf.proveFM(e, fs) || bf.proveByCongruence(e, b, at) || bf.proveByInduction(e)
 }
 
 // proveFM: Fourier–Motzkin refutation of e ≤ −1 from the facts that share
@@ -1786,7 +1799,8 @@ func (bf *boundsFn) constStep(phi *ssa.Phi) (init aff, step int64, ok bool) {
 
 // lockstepFacts: two counters of the same loop head that both move by a
 // constant on every iteration stay on a line:
-// step2·(phi1 − init1) = step1·(phi2 − init2).
+// step2·(phi1 − init1) = step1·(phi2 − init2). The second counter may also be
+// the length of a slice that gains one element per iteration (append).
 func (bf *boundsFn) lockstepFacts(phi *ssa.Phi) {
 	i1, s1, ok := bf.constStep(phi)
 	if !ok {
@@ -1797,14 +1811,105 @@ func (bf *boundsFn) lockstepFacts(phi *ssa.Phi) {
 		if !isPhi {
 			break
 		}
-		if other == phi || !isIntType(other.Type()) {
+		if other == phi {
 			continue
 		}
-		i2, s2, ok := bf.constStep(other)
+		var atom2 aff
+		var i2 aff
+		var s2 int64
+		switch {
+		case isIntType(other.Type()):
+			i2, s2, ok = bf.constStep(other)
+			atom2 = affAtom(ssa.Value(other))
+		default:
+			if _, isSlice := other.Type().Underlying().(*types.Slice); !isSlice {
+				continue
+			}
+			i2, s2, ok = bf.constLenStep(other)
+			atom2 = affAtom(lenKey{ssa.Value(other)})
+		}
 		if !ok {
 			continue
 		}
-		d := affAtom(ssa.Value(phi)).add(i1, -1).scale(s2).add(affAtom(ssa.Value(other)).add(i2, -1).scale(s1), -1)
+		d := affAtom(ssa.Value(phi)).add(i1, -1).scale(s2).add(atom2.add(i2, -1).scale(s1), -1)
 		bf.global = append(bf.global, d, d.scale(-1))
 	}
+}
+
+// constLenStep: the slice phi = φ(init, append(phi, …)/phi[k:]) changes its
+// length by the same constant c ≠ 0 on every back edge and has one initial
+// value.
+func (bf *boundsFn) constLenStep(phi *ssa.Phi) (init aff, step int64, ok bool) {
+	self := lenKey{ssa.Value(phi)}
+	var inits []aff
+	have := false
+	for _, e := range phi.Edges {
+		ea := bf.lenAff(e)
+		if c, has := ea.t[self]; has && c == 1 {
+			d := ea.add(affAtom(self), -1)
+			if !d.isConst() || d.k == 0 || (have && d.k != step) {
+				return aff{}, 0, false
+			}
+			step, have = d.k, true
+			continue
+		}
+		if _, has := ea.t[self]; has {
+			return aff{}, 0, false
+		}
+		inits = append(inits, ea)
+	}
+	if !have || len(inits) != 1 {
+		return aff{}, 0, false
+	}
+	return inits[0], step, true
+}
+
+// returnLenHi: v is (a result of) a static call whose callee returns, at that
+// position, only nil or slices of arrays (or of pointers to arrays) of a fixed
+// size; the largest such size bounds len(v).
+func (B *Bounds) returnLenHi(v ssa.Value) (int64, bool) {
+	idx := 0
+	var call *ssa.Call
+	switch x := v.(type) {
+	case *ssa.Extract:
+		call, _ = x.Tuple.(*ssa.Call)
+		idx = x.Index
+	case *ssa.Call:
+		call = x
+	}
+	if call == nil || call.Call.IsInvoke() {
+		return 0, false
+	}
+	callee := call.Call.StaticCallee()
+	if callee == nil || callee.Blocks == nil {
+		return 0, false
+	}
+	hi, n := int64(0), 0
+	for _, b := range callee.Blocks {
+		ret, ok := b.Instrs[len(b.Instrs)-1].(*ssa.Return)
+		if !ok {
+			continue
+		}
+		if idx >= len(ret.Results) {
+			return 0, false
+		}
+		n++
+		switch r := ret.Results[idx].(type) {
+		case *ssa.Const:
+			if r.Value != nil {
+				return 0, false
+			}
+		case *ssa.Slice:
+			k, ok := arrayLen(r.X.Type())
+			if !ok {
+				return 0, false
+			}
+			if k > hi {
+				hi = k
+			}
+		default:
+			return 0, false
+		}
+	}
+	return hi, n > 0
 }
